@@ -547,23 +547,24 @@ theorem Frame.step' (F : Frame R) (E : Edits R) (hD : ∀ j a u, R j a (a.setDis
 /-- If a reflexive, transitive relation `P` between networks holds across every command that carries no further command,
 across everything that only tears sessions / connections down, across the bookkeeping of an accepted terminal command
 (`last_active_step`, the local login and its connection), then it holds across every request, nested to any depth. -/
-theorem exec_induction' (P : Net → Net → Prop) (refl : ∀ n, P n n) (trans : ∀ a b c, P a b → P b c → P a c)
+theorem exec_induction'' (P : Net → Net → Prop) (refl : ∀ n, P n n) (trans : ∀ a b c, P a b → P b c → P a c)
     (hAtomic : ∀ c, c.atomic = true → ∀ n y, P n (execCmd c n y).1)
     (hDisc : ∀ n y cid, P n (disconnect n.fuel n y cid))
     (hTouch : ∀ n y cid t, P n (n.upd y (Node.touch cid t)))
     (hLogin : ∀ n y u p, P n (localLogin n y u p).1)
-    (hConn : ∀ n y c, P n (n.upd y (Node.addConn c))) :
+    (hLocal : ∀ n y u p id, (localLogin n y u p).2 = some id →
+      P n ((localLogin n y u p).1.upd y (Node.addConn ⟨id, none⟩))) :
     ∀ (c : Cmd) (n : Net) (y : Nat), P n (execCmd c n y).1 := by
   intro c
   induction c with
   | localCmd u p c ih =>
     intro n y
-    rcases opLocalCmdK_cases (fun m => execCmd c m y) n y u p with h0 | ⟨nd, _, _, ⟨_, h0⟩ | ⟨id, _, ⟨_, h0⟩ | ⟨_, h0⟩⟩⟩ <;>
+    rcases opLocalCmdK_cases (fun m => execCmd c m y) n y u p with h0 | ⟨nd, _, _, ⟨_, h0⟩ | ⟨id, hid, ⟨_, h0⟩ | ⟨_, h0⟩⟩⟩ <;>
       simp only [execCmd] <;> rw [h0]
     · exact refl n
     · exact hLogin n y u p
-    · exact trans _ _ _ (hLogin n y u p) (hConn _ _ _)
-    · exact trans _ _ _ (trans _ _ _ (hLogin n y u p) (hConn _ _ _)) (ih _ _)
+    · exact hLocal n y u p id hid
+    · exact trans _ _ _ (hLocal n y u p id hid) (ih _ _)
   | remoteCmd z c ih =>
     intro n y
     rcases opRemoteCmdK_cases (fun m => execCmd c m z) n y z with ⟨h0, _⟩ | ⟨a, b, cn, _, ⟨_, _, h0, _⟩ | ⟨_, h0, _⟩⟩ <;>
@@ -583,6 +584,15 @@ theorem exec_induction' (P : Net → Net → Prop) (refl : ∀ n, P n n) (trans 
   | shutdown => exact hAtomic _ rfl
   | startup => exact hAtomic _ rfl
   | reset => exact hAtomic _ rfl
+
+theorem exec_induction' (P : Net → Net → Prop) (refl : ∀ n, P n n) (trans : ∀ a b c, P a b → P b c → P a c)
+    (hAtomic : ∀ c, c.atomic = true → ∀ n y, P n (execCmd c n y).1)
+    (hDisc : ∀ n y cid, P n (disconnect n.fuel n y cid))
+    (hTouch : ∀ n y cid t, P n (n.upd y (Node.touch cid t)))
+    (hLogin : ∀ n y u p, P n (localLogin n y u p).1)
+    (hConn : ∀ n y c, P n (n.upd y (Node.addConn c))) :
+    ∀ (c : Cmd) (n : Net) (y : Nat), P n (execCmd c n y).1 :=
+  exec_induction'' P refl trans hAtomic hDisc hTouch hLogin (fun n y u p id _ => trans _ _ _ (hLogin n y u p) (hConn _ _ _))
 
 theorem exec_induction (P : Net → Net → Prop) (refl : ∀ n, P n n) (trans : ∀ a b c, P a b → P b c → P a c)
     (hAtomic : ∀ c, c.atomic = true → ∀ n y, P n (execCmd c n y).1)
